@@ -3,7 +3,8 @@ from common import *  # noqa: F401,F403
 
 RULE = ("random pairs of valid knot vectors on the same interval: equal and different degrees (0..4), shared and distinct interior knots with "
         "different multiplicities, identical vectors, Bezier vectors; pairs on different intervals.  Non-trivial: some interior knot; "
-        "distinct = distinct (U, V).")
+        "distinct = distinct (U, V)."
+        " Also: pairs with equal degree, equal breakpoints and equal length whose multiplicities are distributed differently.")
 EXPLANATION = ("L2: U|V and U&V vs the model; L3: degree, per-knot multiplicity formulas, commutativity, idempotence, refinement, untouched "
                "operands evaluated on the real results; representability: a random spline over U (and over V) transformed to U|V by "
                "heavy.Operations.matrix_transformation is the same function (`rf.eq`); minimality: lowering any knot of U|V loses U or V.")
